@@ -9,7 +9,7 @@ pub use super::envlem::dec;
 pub open spec fn var_value<E: Env>(env: E, name: Seq<char>) -> Option<i64> {
     if E::get_fails(name) { None }
     else if !env.vars().contains_key(name) { Some(0i64) }
-    else { parse_spec::<i64>(env.vars()[name]) }
+    else { value_spec(env.vars()[name]) }
 }
 
 pub open spec fn term_value<E: Env>(env: E, t: Term) -> Option<i64> {
